@@ -63,7 +63,7 @@ def run(ctx):
         break
     ctx.notes["model_deadlock_candidates"] = ["%s || %s" % c for c in candidates]
     # implementation level: the scenario list in parallel worker processes (a dead-lock ends a worker)
-    nscn = 208 if q else 240
+    nscn = 330 if q else 362
     jobs = 8
     step = (nscn + jobs - 1) // jobs
     outs = []
